@@ -4,7 +4,8 @@ CONSTANTS
   KeyOrd <- Ord3
   InitEx <- Init3
   TO <- TOsmall
-  MaxNow = 3
+  RevAhead = {0}
+  MaxNow = 4
   MaxPkt = 2
   MaxScan = 2
   Batch = 1000
